@@ -109,17 +109,7 @@ def run(ctx):
     # rule calls three deep under every triple of modifiers: a rule that runs silenced (atomic context, look-ahead)
     # with emitting rules below it is where the Start / End bookkeeping of `rule` can go wrong
     nest = os.path.join(ctx.work, "nest3.ndjson")
-    with open(nest, "w") as f:
-        for t0 in ("", "_", "@", "$", "!"):
-            for t1 in ("", "_", "@", "$", "!"):
-                for t2 in ("", "_", "@", "$", "!"):
-                    for body0 in ('"<" ~ r1 ~ ">"', 'r1 ~ ("," ~ r1)*', '&r1 ~ r1', '!("q" ~ r1) ~ r1 ~ r1?', '&(!"q" ~ r1) ~ r1', '&(&r1 ~ r1) ~ r1', '!(!r1 ~ "q") ~ r1',
-                                  # a sequence abandoned AFTER a rule in it has matched, the failure absorbed by ? / * / | inside the same rule
-                                  '(r1 ~ ";")? ~ r1', '(r1 ~ ";")* ~ r1 ~ "."?', 'r1 ~ ";" ~ "." | r1'):
-                        text = 'r0 = %s{ %s }\nr1 = %s{ r2 ~ ("," ~ r2)* }\nr2 = %s{ "x" ~ ("-" ~ "x")? ~ r3? }\nr3 = { "y" | ^"\u00e9z" }\nWHITESPACE = _{ " " }\n' % (t0, body0, t1, t2)
-                        inputs = ["<x>", "<x-x,x>", "x,x", "x-x", "<x,x y>", "<x, x-xy>", "x", "<xy,xy>", "x,x,x-x", "< x >", "<x\u00e9Z>", "x\u00e9z,x\u00e9z",
-                                  "x;x", "x;x;x,x", "xy;x-x", "x;", "x;x."]
-                        f.write(json.dumps({"text": text, "cases": [{"start": "r0", "inp": [ord(c) for c in i], "exp": {"k": "unknown"}} for i in inputs]}) + "\n")
+    nest3_file(nest)
     out = os.path.join(ctx.work, "str_nest3.ndjson")
     s = run_json([vh, "streams-emit", "--cases", nest, "--out", out], timeout=6000)
     os.remove(nest)
